@@ -659,6 +659,15 @@ def c20_jobs(tier):
             jobs.append({"func": "verif_C20_structural", "args": [kind, r, c], "max_steps": 2000000})
     jobs.append({"func": "verif_C20_orders", "args": []})
     # the rotation kernel of the SVD / QR convergence loops never yields NaN (bit-precise)
+    # followed runs of the uncapped convergence loops on structured rank-deficient input
+    for alg in ((0, 1) if quick else (0, 1, 2, 3)):
+        for pattern in range(7):
+            for n in ((2, 3) if quick else (2, 3, 4)):
+                if pattern == 5 and n == 2 and alg == 0 and False:
+                    continue
+                jobs.append({"pkg": ZZ, "func": "verif_C20_terminates", "args": [alg, pattern, n], "follow": "c20", "terminates": "no-termination",
+                             "max_paths": 1, "max_steps": 600000, "max_wall_ms": 60000, "selftest": False,
+                             "tag": f"terminates alg={alg} pattern={pattern} n={n}"})
     for kind in (0, 1):
         jobs.append({"pkg": ZZ, "func": "verif_C20_givens", "args": [kind], "mode": "real", "tag": f"givens kind={kind}", "selftest": False})
     return jobs
@@ -671,11 +680,12 @@ PROPS["C20"] = {
     "mode": "fp", "intmode": "int",
     "jobs": c20_jobs,
     "reach": ["C20-vecshape", "C20-matshape", "C20-index", "C20-orders", "C20-structural", "C20-givens"],
+    "replay_timeout_s": 20,
     "selftest_vars": ["r", "a", "b", "v", "m", "x", "y"],
     "bounds": {"quick": "loud failure: 11 vector and 10 matrix operation groups with every combination of receiver/operand dimensions in 0..2 (vectors) / 1..2 (matrices), dense and sparse Float64/Real64; element access with a symbolic index "
                         "on vectors (length 3) and on Slice/T views of a 3x3 parent (all slice bounds); SetVariable orders -1..4; dyadic operations on different N; structural loops (Tip, ReverseOrder, Sort, iteration) on shapes up to 3x2",
                "thorough": "also Float32/Real32 containers"},
-    "outside": "termination of the floating-point convergence loops (QR algorithm, SVD, msqrt, line search, optimisers) is not decided; what is: their rotation kernel givensRotation.Run performs no 0/0 division and no square root of a negative number for any input (real interpretation), so it cannot feed a NaN into the NaN-blind exit tests; NaN through overflow; invalid option values of the algorithm packages",
+    "outside": "termination of the floating-point convergence loops (QR algorithm, SVD, msqrt, line search, optimisers) in general is not decided; what is: (a) the runs of svd.Run and of the symmetric QR algorithm that inputs derived from a seed take on 7 structured patterns (zero matrix, zero first column, zero last row, rank one, nilpotent, diagonal with a zero, full; n = 2, 3; symbolic non-zero entries) end within 600000 executor steps, which covers the inputs sharing that run's branch decisions, not all inputs; (b) their rotation kernel givensRotation.Run performs no 0/0 division and no square root of a negative number for any input (real interpretation), so it cannot feed a NaN into the NaN-blind exit tests; NaN through overflow; invalid option values of the algorithm packages",
     "assumptions": ["a loop that does not terminate within the executor's step bound shows up as an undecided path (reported, never counted as held)"],
 }
 
